@@ -73,6 +73,39 @@ func secAlg(e *emitter) {
 			secAlgCase(e, true, alg, k, c, 1, dir, msg)
 		}
 	}
+	// low-entropy messages: all-zero / all-one octets, and random messages with one 4/8/16-octet aligned block forced to
+	// zeros or ones at every block position (data-dependent shortcuts: skipped zero blocks, cached blocks, sign handling)
+	for _, l := range []int{1, 7, 8, 9, 15, 16, 17, 24, 31, 32, 33, 40, 64, 65, 100} {
+		for _, fill := range []byte{0x00, 0xff} {
+			msg := make([]byte, l)
+			for i := range msg {
+				msg[i] = fill
+			}
+			for _, alg := range []uint8{1, 2} {
+				secAlgCase(e, false, alg, keys[1], counts[1], 1, 0, msg)
+				secAlgCase(e, true, alg, keys[1], counts[1], 1, 1, msg)
+			}
+		}
+	}
+	for _, l := range []int{24, 40, 41, 64} {
+		for _, bs := range []int{4, 8, 16} {
+			for pos := 0; pos+bs <= l; pos += bs {
+				msg := e.bytes(l)
+				fill := byte(0x00)
+				if (pos/bs)%3 == 2 {
+					fill = 0xff
+				}
+				for i := pos; i < pos+bs; i++ {
+					msg[i] = fill
+				}
+				alg := uint8(1 + (pos/bs+l)%2)
+				secAlgCase(e, true, alg, keys[1], counts[(pos+l)%len(counts)], 1, uint8(pos/bs%2), msg)
+				if bs == 16 {
+					secAlgCase(e, false, alg, keys[1], counts[(pos+l)%len(counts)], 1, uint8(pos/bs%2), msg)
+				}
+			}
+		}
+	}
 	// random cases, including argument-check edges
 	for i := 0; i < e.n; i++ {
 		var k [16]byte
